@@ -11,7 +11,7 @@ func c12Profiles(tier string) []Profile {
 	if tier == "thorough" {
 		d = 6
 	}
-	p := &SeqProfile{Name: "collections", Keys: [][]byte{kA, kB}, Depth: d,
+	p := &SeqProfile{Name: "collections", Keys: [][]byte{kA, kB}, Depth: d, MapOrders: true,
 		Mon: harness.Monitors{Durable: true},
 		Letters: func(w *harness.World) []Letter {
 			var ls []Letter
